@@ -1022,8 +1022,31 @@ fn gen_history(r: &mut Rng) -> History {
         };
         runs.push(c);
     }
+    // the last run on (almost) nothing: zero records, or one record with a handful of k-mers so that most
+    // counting partitions stay empty (a shortcut for "nothing to write" must not expose stale files)
     let mut stale = Vec::new();
-    if r.chance(1, 2) {
+    let tiny = r.chance(1, 3);
+    if tiny {
+        let last = runs.len() - 1;
+        let k = match &runs[last].sub { Sub::Ctr { k, .. } | Sub::Cov { k, .. } | Sub::Oligo { k, .. } => *k as usize, Sub::Min { m, .. } => *m as usize, _ => 3 };
+        let extra = r.below(3) as usize;
+        runs[last].recs = if r.chance(1, 2) { vec![] } else { vec![gen::clean_seq(r, k + extra, gen::Flavor::Uniform)] };
+        match &mut runs[last].sub {
+            Sub::Oligo { counts, header, .. } => { if r.chance(2, 3) { *counts = false; *header = false; } }
+            Sub::Ctr { threads, .. } | Sub::Cov { threads, .. } => { *threads = *r.pick(&[8u64, 16]); }
+            _ => {}
+        }
+        if runs[0].out_is_dir() {
+            for p in 0..16u64 {
+                for ch in 0..2u64 {
+                    stale.push((format!("temp_kmers.part_{}_chunk_{}", p, ch), format!("{}\t{}\n", 1000 + p * 7 + ch, 3).into_bytes()));
+                }
+            }
+        } else {
+            stale.push((String::new(), b"0.111111 0.222222 0.333333\n".repeat(30)));
+        }
+    }
+    if !tiny && r.chance(1, 2) {
         if runs[0].out_is_dir() {
             // left-overs of a crashed run with more chunks / partitions, a stale table and vectors file
             for (p, ch) in [(0u64, 0u64), (1, 0), (3, 1), (40, 7)] {
